@@ -582,6 +582,18 @@ impl VLog {
 		Ok(vlog)
 	}
 
+	/// Forgets the writer, the known files and the cached handles, and loads them again
+	/// from the directory. Needed after the directory was replaced (restore from a
+	/// checkpoint): the old writer holds the replaced file and stale offsets.
+	pub(crate) fn reload(&self) -> Result<()> {
+		*self.writer.write() = None;
+		self.files_map.write().clear();
+		self.file_handles.write().clear();
+		self.next_file_id.store(1, Ordering::SeqCst);
+		self.active_writer_id.store(0, Ordering::SeqCst);
+		self.prefill_file_handles()
+	}
+
 	/// Appends a key+value pair to the log and returns a ValuePointer
 	pub(crate) fn append(&self, key: &[u8], value: &[u8]) -> Result<ValuePointer> {
 		// Ensure we have a writer
